@@ -19,7 +19,12 @@ Inductive aexp :=
 | Par (i : nat)                 (* i-th entry of veccat(parameters) *)
 | Add (a b : aexp) | Sub (a b : aexp) | Mul (a b : aexp) | Div (a b : aexp)
 | Neg (a : aexp)
-| Pow (a : aexp) (n : nat).
+| Pow (a : aexp) (n : nat)
+(* piecewise nodes (outside the polynomial fragment and outside the affine class unless
+   parameter-free); truth = non-zero, as CasADi evaluates Boolean parameters as 0.0 / 1.0 *)
+| IfB (c a b : aexp)            (* if c then a else b  (ca.if_else) *)
+| NotB (a : aexp)               (* not a *)
+| LtB (a b : aexp).             (* a < b  -> 1 / 0 *)
 
 Fixpoint eval (p : list Qc) (e : aexp) : Qc :=
   match e with
@@ -31,6 +36,9 @@ Fixpoint eval (p : list Qc) (e : aexp) : Qc :=
   | Div a b => eval p a / eval p b
   | Neg a => - eval p a
   | Pow a n => Qcpower (eval p a) n
+  | IfB c a b => if Qc_eq_bool (eval p c) 0 then eval p b else eval p a
+  | NotB a => if Qc_eq_bool (eval p a) 0 then 1 else 0
+  | LtB a b => match (eval p a ?= eval p b) with Lt => 1 | _ => 0 end
   end.
 
 Definition qnz (q : Qc) : bool := negb (Qc_eq_bool q 0).
@@ -41,7 +49,9 @@ Fixpoint safe (p : list Qc) (e : aexp) : bool :=
   | Cst _ | Par _ => true
   | Add a b | Sub a b | Mul a b => safe p a && safe p b
   | Div a b => safe p a && safe p b && qnz (eval p b)
-  | Neg a | Pow a _ => safe p a
+  | Neg a | Pow a _ | NotB a => safe p a
+  | IfB c a b => safe p c && safe p a && safe p b
+  | LtB a b => safe p a && safe p b
   end.
 
 (* parameter-free subexpression ("c" of the affine class; the generator folds such
@@ -51,7 +61,9 @@ Fixpoint pfree (e : aexp) : bool :=
   | Cst _ => true
   | Par _ => false
   | Add a b | Sub a b | Mul a b | Div a b => pfree a && pfree b
-  | Neg a | Pow a _ => pfree a
+  | Neg a | Pow a _ | NotB a => pfree a
+  | IfB c a b => pfree c && pfree a && pfree b
+  | LtB a b => pfree a && pfree b
   end.
 
 (* The syntactic affine class  c | p_i | a+a | a-a | c*a | a*c | a/c | -a  (c parameter-free).
@@ -73,6 +85,9 @@ Fixpoint affine (e : aexp) : bool :=
   | Div a b => affine a && pfree b
   | Neg a => affine a
   | Pow a _ => pfree a          (* folded to a constant before CasADi sees it *)
+  | IfB c a b => pfree c && pfree a && pfree b   (* piecewise nodes: only when parameter-free *)
+  | NotB a => pfree a
+  | LtB a b => pfree a && pfree b
   end.
 
 (* value at p = 0  (bf(0), model.py:1413) *)
@@ -91,6 +106,8 @@ Fixpoint d0 (e : aexp) (i : nat) : Qc :=
   | Div a b => (d0 a i * v0 b - v0 a * d0 b i) / (v0 b * v0 b)
   | Neg a => - d0 a i
   | Pow a n => match n with O => 0 | S m => qnat n * Qcpower (v0 a) m * d0 a i end
+  | IfB c a b => if Qc_eq_bool (v0 c) 0 then d0 b i else d0 a i   (* the branch selected at p = 0 *)
+  | NotB _ | LtB _ _ => 0
   end.
 
 Fixpoint dot (g : nat -> Qc) (p : list Qc) (i : nat) : Qc :=
@@ -353,6 +370,9 @@ Fixpoint subst (sg : list aexp) (e : aexp) : aexp :=
   | Div a b => Div (subst sg a) (subst sg b)
   | Neg a => Neg (subst sg a)
   | Pow a n => Pow (subst sg a) n
+  | IfB c a b => IfB (subst sg c) (subst sg a) (subst sg b)
+  | NotB a => NotB (subst sg a)
+  | LtB a b => LtB (subst sg a) (subst sg b)
   end.
 
 Fixpoint vsubst (sg : list aexp) (v : vexp) : vexp :=
